@@ -69,3 +69,18 @@ package enterprise
 //@ func (github.com/unification-com/mainchain/x/enterprise/keeper.Keeper).GetEnterpriseAccount(ctx) (r)
 //@   trusted returns the module account object from the account keeper; reads no enterprise state
 //@   pure
+
+// Genesis export (C15), the purchase-order part: the document lists every stored order exactly once, in ascending id
+// order, with every field as stored; the starting id and the parameters are the stored ones.  Importing such a
+// document (InitGenesis above) stores the same bytes under the same keys and rebuilds the queues from the statuses.
+//@ func ExportGenesis(ctx, keeper) (gs)
+//@   props C15
+//@   pure
+//@   requires forall i int :: {ent_store[kPO(i)]} poHas(ent_store, i) ==> 0 <= i && i < 2^64 && poGet(ent_store, i).Id == i
+//@   requires ENT_BOOKS_WF(ent_store)
+//@   requires entHighestSet(ent_store) ==> len(ent_store[kEHighest]) == 8
+//@   ensures @orders_ascending forall i int, j int :: {gs.PurchaseOrders[i], gs.PurchaseOrders[j]} 0 <= i && i < j && j < len(gs.PurchaseOrders) ==> gs.PurchaseOrders[i].Id < gs.PurchaseOrders[j].Id
+//@   ensures @orders_as_stored forall j int :: {gs.PurchaseOrders[j]} 0 <= j && j < len(gs.PurchaseOrders) ==> poHas(ent_store, gs.PurchaseOrders[j].Id) && gs.PurchaseOrders[j] == poGet(ent_store, gs.PurchaseOrders[j].Id)
+//@   ensures @all_orders forall x uint64 :: {ent_store[kPO(x)]} poHas(ent_store, x) ==> exists j int :: 0 <= j && j < len(gs.PurchaseOrders) && gs.PurchaseOrders[j].Id == x
+//@   ensures @next_id entHighestSet(ent_store) ==> entHighestIs(ent_store, gs.StartingPurchaseOrderId)
+//@   ensures @params_and_totals gs.Params == entParams(ent_store) && Amt(gs.TotalLocked) == totalLockedAmt(ent_store) && Amt(gs.TotalSpent) == totalSpentAmt(ent_store)
